@@ -89,6 +89,15 @@ func (q *UdpTaskQueue) popOverflowTask() (UdpTask, bool) {
 	q.enqueueMu.Lock()
 	defer q.enqueueMu.Unlock()
 
+	// The caller polled the channel before taking the lock. Tasks sent to the channel in
+	// between are older than anything in the overflow list (enqueue fills the channel first,
+	// under this lock), so drain them first to keep per-flow order.
+	select {
+	case task := <-q.ch:
+		return task, true
+	default:
+	}
+
 	if len(q.overflow) == 0 {
 		q.overflowMode = false
 		return nil, false
